@@ -9,6 +9,8 @@ import copy
 from .facts import FactsError
 
 TOP = ("top",)
+import time as _time
+WALL_DEADLINE = None      # set by a rule around one abstract run (covers nested executors); None = no wall-clock limit
 
 
 class Ref:
@@ -399,6 +401,8 @@ class AbsExec:
             self.steps += 1
             if self.steps > self.max_steps or len(results) > self.max_paths:
                 raise FactsError("abstract execution budget exceeded in %s" % fr.body.path)
+            if WALL_DEADLINE is not None and (self.steps & 255) == 0 and _time.time() > WALL_DEADLINE:
+                raise FactsError("abstract execution wall-clock budget exceeded in %s" % fr.body.path)
             blk = fr.body.blocks[bb]
             if (fr.body.path, bb) in self.abstract_heads():
                 if hasattr(self.domain, "at_head"):
